@@ -993,6 +993,8 @@ class MethodCtx:
                 return v, t
             if e.id in env.locals:
                 return e.id, env.locals[e.id]
+            if e.id == "self":
+                return "self", self.cls.name        # the object itself passed as an argument
             _u(e, "unknown name")
         if isinstance(e, ast.Attribute):
             return self.attribute(e, env)
@@ -1421,8 +1423,12 @@ class MethodCtx:
             c = self.tr.classes.get(t)
             if c is not None and (c.name, f.attr) in self.tr.sigs:
                 params, ret, pure, raises, oracles = self.tr.sigs[(c.name, f.attr)]
-                if pure and not raises and not oracles and len(e.args) == len(params):
+                if pure and not raises and len(e.args) == len(params):
                     args = [self.coerce(*self.expr(a, env, pt), pt, e) for a, (_, pt) in zip(e.args, params)]
+                    for (op, ot) in oracles:          # one fresh oracle parameter per call site
+                        nm = self.tr.gensym(op)
+                        self.oracle_params.append((nm, ot))
+                        args.append(nm)
                     return f"({c.name}_{f.attr} {x} {' '.join(args)})", ret
             _u(e, f"method call on a value of type {t}")
         _u(e, "call")
